@@ -645,6 +645,14 @@ example : ∃ (ps : List Nat) (fr : List (Nat × Nat)), fr ≠ [] ∧ ps ≠ [] 
     (fr.map (·.1)).Pairwise (· < ·) ∧ ∀ p ∈ fr, p.1 < ps.length + fr.length :=
   ⟨[10, 11], [(0, 7), (2, 8)], by decide, by decide, by decide, by decide⟩
 
+/-- the `sorted(...)` in `get_full_params` is needed: inserting the frozen values in the order the
+dict happens to list them (seeded changes C18-4 / C19-4) puts a frozen value at the wrong index -
+`U3.with_frozen_params({1: b, 0: a})` with free parameter `x` would evaluate `U3(a, x, b)` -/
+theorem C18_frozen_needs_sorted_witness :
+    fullParams [100] [(0, 7), (1, 8)] = [7, 8, 100]
+    ∧ fullParams [100] [(1, 8), (0, 7)] = [7, 100, 8]
+    ∧ (fullParams [100] [(1, 8), (0, 7)])[1]? ≠ some 8 := by decide
+
 /-- the frozen gate is the inner gate at the full parameter vector (by definition), hence
 unitary whenever the inner gate is unitary at every parameter vector -/
 theorem C18_frozen_unitary (v : GVal R) (fr : List (Nat × Ang R))
